@@ -2,7 +2,7 @@
     Properties/C04.v hold, and on which model and Spec compute the expected verdicts *)
 From Coq Require Import List NArith ZArith Bool String.
 From ApiFu Require Import Base.Sexp Vld.Ast Vld.Inspect Vld.TypeInfoModel Vld.ValidatorModel Vld.ValidSpec Vld.Hyps
-     Vld.ProofsCommon Vld.ProofsDirectives Vld.ProofsArguments Vld.ProofsFragDecl Vld.ProofsValues Vld.ProofsCycles Vld.ValidatorProofs Vld.Witness.
+     Vld.ProofsCommon Vld.ProofsDirectives Vld.ProofsArguments Vld.ProofsFragDecl Vld.ProofsValues Vld.ProofsCycles Vld.ValidatorProofs Vld.ProofsTotal Vld.MemoEquiv Vld.ProofsSubscription Vld.Witness.
 Import ListNotations.
 Open Scope N_scope.
 Open Scope string_scope.
@@ -14,12 +14,21 @@ Example ex_schema_impls_ok : schema_impls_ok ex_schema = true.
 Proof. vm_compute. reflexivity. Qed.
 Example ex_schema_defaults_ok : schema_defaults_ok ex_schema = true.
 Proof. vm_compute. reflexivity. Qed.
+Example ex_schema_ifaces_ok : schema_ifaces_ok ex_schema = true.
+Proof. vm_compute. reflexivity. Qed.
 Example ex_schema_ok : schema_ok ex_schema = true.
 Proof. vm_compute. reflexivity. Qed.
 Example ex_fields_defined : fields_defined ex_schema [] ex_valid = true.
 Proof. vm_compute. reflexivity. Qed.
 Example ex_values_typed : values_typed_input ex_schema [] ex_valid = true.
 Proof. vm_compute. reflexivity. Qed.
+(** the positional hypotheses hold of the example document (as of any parsed one) *)
+Example ex_positions_ok : doc_positions_ok ex_valid = true.
+Proof. vm_compute. reflexivity. Qed.
+Example ex_sets_distinct : doc_set_positions_distinct ex_valid.
+Proof. unfold doc_set_positions_distinct. vm_compute. repeat constructor; cbn; intuition discriminate. Qed.
+Example ex_fields_distinct : doc_field_positions_distinct ex_valid.
+Proof. unfold doc_field_positions_distinct, field_positions. vm_compute. repeat constructor; cbn; intuition discriminate. Qed.
 Example ex_orders_ok : order_ok id_order /\ order_ok rev_order.
 Proof. split; [exact id_order_ok | exact rev_order_ok]. Qed.
 
